@@ -60,7 +60,7 @@ ExplicitEnvFiles == {<<P(4, ".env")>>, <<P(2, ".env"), P(4, ".env")>>, <<P(4, ".
 
 Step(label, arg, res) ==
   /\ tr' = [act |-> label, arg |-> arg, from |-> o, to |-> res]
-  /\ o' = IF IsErr(res) \/ label = "load" THEN [done |-> TRUE] ELSE res
+  /\ o' = IF IsErr(res) \/ label \in {"load", "load-model"} THEN [done |-> TRUE] ELSE res
   /\ UNCHANGED w /\ steps' = steps + 1
 Live == "done" \notin DOMAIN o
 Next ==
@@ -75,6 +75,7 @@ Next ==
      \/ \E fs \in ExplicitEnvFiles : Step("env-files", fs, WithEnvFiles(o, fs))
      \/ Step("dot-env", 0, WithDotEnv(o))
      \/ Step("load", 0, Loaded(o))
+     \/ Step("load-model", 0, LoadedModel(o))
 Spec == Init /\ [][Next]_vars
 
 \* laws of the specification itself
